@@ -9,7 +9,7 @@ CHECKS = {
               "scenario classes (options beyond bounds, degenerate shapes, absurd inputs, contradictory sample lists, field-level "
               "file damage) enumerated by TLC; every scenario is run on the real binary and classified Exit0 / ExitErr+diagnostic "
               "/ panic. CliArgs.tla adds the command-line grammar (option tables, exclusive groups, once-only options, "
-              "malformed tokens) and the input-resolution rule; every command line in the bound is run (stdin as terminal via a pty)."),
+              "malformed tokens) and the input-resolution rule; every command line in the bound is run (stdin as terminal via a pty); stat precision lists at and beyond the bounds; every tool into a dead stdout (EPIPE, ENOSPC)."),
         design_ref="DESIGN.md section 3 (C17), section 5 and section 9.7",
         note=("The grids are exhaustive in the bound (model-checked case table). Mutated inputs are exploration: TLC enumerates "
               "damage classes, the bytes are seeded random (3 seeds quick, 25 thorough). Trusted: TLC, harness concretisation."),
@@ -77,7 +77,7 @@ CHECKS = {
         text=("ToolChain.tla: all producer -> transformer* -> consumer chains over formats, precisions and transports with the "
               "artefact in flight as state (format identifiable from its first bytes, exact rounding bound); each chain is run "
               "with real processes, files, pipes and named pipes, onto fresh and stale destinations; plus library round trips, "
-              "large artefacts and the 15-digit text/npy/text identity."),
+              "large artefacts and the 15-digit text/npy/text identity; artefacts travel in two bursts, every text artefact carries exactly the requested decimals, and a sink that loses the last byte or is dead must give an error."),
         design_ref="DESIGN.md section 3 (C07)",
         note=("Chains exhaustive up to the step bound (quick 2, thorough 3) over precisions {0,6,17}; values are a fixed pool, "
               "not all f64. Trusted: TLC, Q.class, harness parsers for both formats."),
@@ -87,7 +87,7 @@ CHECKS = {
         category="model_checking",
         text=("NpyFile.tla: writer layout invariant for every dict length modulo 64 and the exact header bytes; reader decode of "
               "every dtype/byte order/version/header spelling by exact positional arithmetic; both replayed on write_npy/read_npy "
-              "and `sfs view`, byte for byte and bit for bit."),
+              "and `sfs view`, byte for byte and bit for bit (stdout, -o over an older longer file, dead stdout)."),
         design_ref="DESIGN.md section 3 (C15)",
         note=("Exhaustive over the listed matrix; values per type are boundary patterns (not all bit patterns). numpy's behaviour is "
               "taken from the format document, numpy itself is not run. Trusted: TLC, Q.class, harness file assembly."),
@@ -98,7 +98,7 @@ CHECKS = {
         text=("Every truncation offset and every extension 1..16 of npy files over versions/itemsizes/shapes, and up to 3 token/"
               "shape edits of text files, enumerated from the NpyFile/TextFile damage models (TLC checks the model reader rejects "
               "them all) and applied to Array::read_npy, the spectrum reader and view/fold/stat; trailing junk of ten content classes; "
-              "TextGrammar.tla: the accepted language of the text reader character by character (7056 spelled files)."),
+              "TextGrammar.tla: the accepted language of the text reader character by character (7056 spelled files). Damage also arrives in a later burst than the intact part, and after one transient interruption of the stream."),
         design_ref="DESIGN.md section 3 (C16)",
         note=("Exhaustive per base file; base files are a bounded catalogue. Trusted: TLC, harness damage application."),
         technique="TLA+ reader/damage model, TLC-checked rejection of every fault position, exhaustive fault application to the implementation",
@@ -126,7 +126,7 @@ CHECKS = {
     ),
     "C09": dict(
         category="model_checking",
-        text=('SampleMap.tla + Create.tla: population ids by first appearance; all list/label/column permutations in the bound; TLC checks the transposition relation, replay checks the real output for every permutation and both list syntaxes.'),
+        text=('SampleMap.tla + Create.tla: population ids by first appearance; all list/label/column permutations in the bound; TLC checks the transposition relation, replay checks the real output for every permutation and both list syntaxes (the sample file also through a named pipe in two bursts); histories of records with faults and all-missing records.'),
         design_ref="DESIGN.md sections 2 and 3 (C09)",
         note=('Exhaustive inside the scenario bounds of the listed MCCreate_*.cfg; beyond them (more samples, longer streams) nothing is claimed by this check. Trusted: TLC, Q.class, harness file synthesis and comparison.'),
         technique="TLA+ pipeline state machine (Create.tla) with declarative oracle, TLC exhaustive enumeration, behaviour replay through library and binary",
@@ -159,7 +159,7 @@ CHECKS = {
         category="model_checking",
         text=("Marginalize.tla: every order of one-axis removals from every shape in the bound; path independence, equality with the "
               "declarative sum, mass, and the as-coded validate/sort/shift operator are TLC invariants; every path and every probe "
-              "(valid or invalid axis sequence) is replayed on Spectrum::marginalize and `sfs view -m/-M`. SpectrumLarge.tla repeats the joint removal for every proper subset of axes on concrete spectra of 66049-90000 cells (expected entries computed exactly by TLC)."),
+              "(valid or invalid axis sequence) is replayed on Spectrum::marginalize and `sfs view -m/-M`. SpectrumLarge.tla repeats the joint removal for every proper subset of axes on concrete spectra of 66049-90000 cells (expected entries computed exactly by TLC). The binary's result is also delivered with -o onto an older, longer file and in place (input and destination the same file)."),
         design_ref="DESIGN.md section 3 (C04)",
         note=("Exhaustive in the bound (quick: 1-4 axes lengths 1-3; thorough: 1-5 axes lengths 1-3 plus an unequal-length catalogue "
               "up to length 6). Trusted: TLC, harness evaluation."),
@@ -169,7 +169,7 @@ CHECKS = {
         category="model_checking",
         text=("Fold.tla: sequences of fold/mirror on symbolic spectra; declarative fold = as-coded fold, mass (fill 0), idempotence, "
               "polarity symmetry and 'lower cells are fill' are TLC invariants in every state; every behaviour is replayed on "
-              "Spectrum::fold for all four fills and on `sfs fold`. SpectrumLarge.tla folds concrete spectra of 66049-84000 cells with exact expected entries."),
+              "Spectrum::fold for all four fills and on `sfs fold`. SpectrumLarge.tla folds concrete spectra of 66049-84000 cells with exact expected entries. The binary's result is also delivered onto an older, longer file and into a dead stdout (must be a diagnosed error)."),
         design_ref="DESIGN.md section 3 (C05)",
         note=("Exhaustive in the bound (quick: 1-3 axes lengths 1-4, 3 ops; thorough: 1-3 axes lengths 1-7 with 3 ops, 1-4 axes "
               "lengths 1-5 with 2 ops). Trusted: TLC, harness mirror/evaluation."),
